@@ -123,6 +123,28 @@ impl Fibre {
     }
 }
 
+impl Fibre {
+    /// Abandon a suspended fibre *without* running the destructors of what lives on its stack, and
+    /// recycle the stack. Used when a run ended abnormally: a destructor that panics during a
+    /// forced unwind would abort the process. Whatever the fibre's frames own on the heap leaks.
+    pub fn discard(mut self) {
+        if let Some(mut co) = self.co.take() {
+            if !co.done() {
+                // SAFETY: the coroutine is never resumed again and nothing outside refers to objects
+                // on its stack (wakers and timers only hold heap-allocated flags).
+                unsafe { co.force_reset() };
+            }
+            let stack = co.into_stack();
+            STACKS.with(|s| {
+                let mut s = s.borrow_mut();
+                if s.len() < 16 {
+                    s.push(stack);
+                }
+            });
+        }
+    }
+}
+
 impl Drop for Fibre {
     fn drop(&mut self) {
         if let Some(mut co) = self.co.take() {
@@ -134,6 +156,10 @@ impl Drop for Fibre {
                 let _ = catch_unwind(AssertUnwindSafe(|| co.force_unwind()));
                 CUR_ID.with(|c| c.set(prev_id));
                 NO_YIELD.with(|n| n.set(prev));
+            }
+            if !co.done() && !co.started() {
+                // Never ran: nothing on its stack.
+                unsafe { co.force_reset() };
             }
             if co.done() || !co.started() {
                 if co.done() {
